@@ -38,7 +38,7 @@ def _signal(lock):
 
 
 WATCHDOG_S = 60.0
-STEP_LIMIT = 20000
+STEP_LIMIT = 200000
 
 
 def msgid(m):
@@ -52,7 +52,7 @@ def msgid(m):
 
 
 class _T:
-    __slots__ = ("tid", "name", "sem", "exited", "pending", "finished", "started", "h", "nops", "obj", "real",
+    __slots__ = ("tid", "name", "sem", "exited", "vc", "pending", "finished", "started", "h", "nops", "obj", "real",
                  "decision", "crash", "stepped_since_sleep")
 
     def __init__(self, tid, name, obj):
@@ -69,6 +69,7 @@ class _T:
         self.decision = None
         self.crash = None
         self.stepped_since_sleep = True
+        self.vc = {tid: 1}  # vector clock (only maintained while a race detector is attached)
 
 
 class Execution:
@@ -79,6 +80,8 @@ class Execution:
     def __init__(self, prefix=(), timeouts=0, interrupts=0, line_mode=False, stop_at_seen=None,
                  trace_files=("auditok/workers.py",), policy=None):
         self.policy = policy
+        self.race = None  # RaceDetector, when unsynchronised accesses are being looked for
+        self.line_codes = None  # line mode: restrict scheduling points to these (filename, firstlineno) code objects
         self.prefix = list(prefix)
         self.trace = []  # chosen indices
         self.nalts = []  # number of alternatives at each point
@@ -174,8 +177,23 @@ class Execution:
 
     def _ltrace(self, frame, event, arg):
         if event == "line" and not self.abort:
-            self.point(("line", frame.f_lineno))
+            if self.line_codes is None or (frame.f_code.co_filename, frame.f_code.co_firstlineno) in self.line_codes:
+                self.point(("line", frame.f_lineno))
         return self._ltrace
+
+    # -- happens-before bookkeeping (release: attach a copy, then tick; acquire: join) ----------
+    def hb_release(self):
+        me = self.me()
+        snap = dict(me.vc)
+        me.vc[me.tid] = me.vc.get(me.tid, 0) + 1
+        return snap
+
+    def hb_acquire(self, snap):
+        if snap:
+            me = self.me()
+            for k, v in snap.items():
+                if me.vc.get(k, 0) < v:
+                    me.vc[k] = v
 
     # -- enabledness -----------------------------------------------------
     def _alts(self):
@@ -347,6 +365,7 @@ class CtlQueue:
 
     def __init__(self, maxsize=0):
         self.items = collections.deque()
+        self.vcs = collections.deque()  # happens-before stamps travelling with the messages
         self.maxsize = maxsize
         ex = Execution.cur
         if ex is not None:
@@ -388,6 +407,7 @@ class CtlQueue:
             if self._is_full():
                 raise Full
             self.items.append(m)
+            self.vcs.append(None)
             return
         if not block:
             return self.put_nowait(m)
@@ -396,6 +416,7 @@ class CtlQueue:
             ex.record(("put", "FULL-TIMEOUT"))
             raise Full
         self.items.append(m)
+        self.vcs.append(ex.hb_release())
         ex.record(("put", msgid(m)))
 
     def put_nowait(self, m):
@@ -407,12 +428,15 @@ class CtlQueue:
             ex.record(("put_nowait", "FULL"))
             raise Full
         self.items.append(m)
+        self.vcs.append(ex.hb_release())
         ex.record(("put_nowait", msgid(m)))
 
     def get(self, block=True, timeout=None):
         ex = self._ctl()
         if ex is None:
             if self.items:
+                if self.vcs:
+                    self.vcs.popleft()
                 return self.items.popleft()
             raise Empty
         if not block:
@@ -422,6 +446,7 @@ class CtlQueue:
             ex.record(("get", "TIMEOUT"))
             raise Empty
         m = self.items.popleft()
+        ex.hb_acquire(self.vcs.popleft() if self.vcs else None)
         ex.record(("get", msgid(m)))
         return m
 
@@ -429,11 +454,14 @@ class CtlQueue:
         ex = self._ctl()
         if ex is None:
             if self.items:
+                if self.vcs:
+                    self.vcs.popleft()
                 return self.items.popleft()
             raise Empty
         ex.point(("get_nowait", self))
         if self.items:
             m = self.items.popleft()
+            ex.hb_acquire(self.vcs.popleft() if self.vcs else None)
             ex.record(("get_nowait", msgid(m)))
             return m
         ex.record(("get_nowait", "EMPTY"))
@@ -448,6 +476,8 @@ def ctl_start(self):
     ex.point(("start", t))
     t.started = True
     t.pending = ("begin",)
+    t.vc = dict(ex.hb_release())
+    t.vc[t.tid] = 1
     ex._launch(t, t.real)
     ex.record(("start", t.tid))
 
@@ -460,6 +490,7 @@ def ctl_join(self, timeout=None):
     if t is None:
         raise RuntimeError("cannot join thread before it is started")
     ex.point(("join", t))
+    ex.hb_acquire(t.vc)
     ex.record(("join", t.tid))
 
 
@@ -470,6 +501,8 @@ def ctl_is_alive(self):
         return bool(t is not None and t.started and not t.finished)
     ex.point(("is_alive", t))
     alive = bool(t is not None and t.started and not t.finished)
+    if t is not None and t.finished:
+        ex.hb_acquire(t.vc)
     ex.record(("is_alive", alive))
     return alive
 
@@ -479,6 +512,116 @@ def ctl_ident(self):
     if t is None or not t.started:
         return None
     return 1000 + t.tid
+
+
+class RaceDetector:
+    """Happens-before detector for unsynchronised accesses to instance attributes of Worker objects.
+
+    Every read / write of an instance attribute by a controlled thread is logged with the thread's
+    vector clock; reading an attribute that holds a mutable container counts as a potential write of
+    it (`self._cache.append(x)` is a read of `_cache`).  Two accesses to the same (object, attribute)
+    by different threads, at least one a write, neither ordered before the other by the
+    put->get / start / join edges, are a race.  A race is not reported as a violation: it *directs*
+    a line-level search (scheduling points in the racing functions only) that looks for one."""
+
+    def __init__(self):
+        self.acc = {}  # (id(obj), attr) -> list of (tid, kind, vc snapshot, (file, firstlineno, lineno, func))
+        self.races = []
+
+    def access(self, obj, name, kind, t, frame):
+        code = frame.f_code
+        lst = self.acc.setdefault((id(obj), name, type(obj).__name__), [])
+        if len(lst) < 400:
+            lst.append((t.tid, kind, dict(t.vc), (code.co_filename, code.co_firstlineno, frame.f_lineno, code.co_name)))
+
+    @staticmethod
+    def _before(a, b):
+        # a happened before b iff b's thread had learned of a's epoch
+        return a[2].get(a[0], 0) <= b[2].get(a[0], 0)
+
+    def analyse(self):
+        codes = set()
+        for (oid, name, cls), lst in self.acc.items():
+            for i in range(len(lst)):
+                a = lst[i]
+                for j in range(i + 1, len(lst)):
+                    b = lst[j]
+                    if a[0] == b[0] or (a[1] == "r" and b[1] == "r"):
+                        continue
+                    if self._before(a, b) or self._before(b, a):
+                        continue
+                    self.races.append((cls, name, a[3], b[3]))
+                    codes.add((a[3][0], a[3][1]))
+                    codes.add((b[3][0], b[3][1]))
+        return codes
+
+
+_MUTABLE = (list, dict, set, bytearray, collections.deque)
+
+
+def _hook_getattribute(self, name):
+    val = object.__getattribute__(self, name)
+    ex = Execution.cur
+    if ex is not None and ex.race is not None and name[:2] != "__":
+        t = ex.me()
+        if t is not None and not ex.abort:
+            try:
+                inst = name in object.__getattribute__(self, "__dict__")
+            except Exception:
+                inst = False
+            if inst and name != "_ctl_t":
+                ex.race.access(self, name, "rw" if isinstance(val, _MUTABLE) else "r", t, sys._getframe(1))
+    return val
+
+
+def _hook_setattr(self, name, value):
+    ex = Execution.cur
+    if ex is not None and ex.race is not None and name != "_ctl_t":
+        t = ex.me()
+        if t is not None and not ex.abort:
+            ex.race.access(self, name, "w", t, sys._getframe(1))
+    object.__setattr__(self, name, value)
+
+
+def enable_access_hooks(on):
+    """Install / remove the attribute hooks on auditok.workers.Worker (they cost ~3x, so only while detecting)."""
+    w = _installed["workers"].Worker
+    if on:
+        w.__getattribute__ = _hook_getattribute
+        w.__setattr__ = _hook_setattr
+    else:
+        for n in ("__getattribute__", "__setattr__"):
+            if n in w.__dict__:
+                delattr(w, n)
+
+
+def find_races(make, timeouts=0, interrupts=0, cleanup=None):
+    """Runs the default schedule and one starvation schedule per thread with access logging on;
+    returns (set of racing code objects as (filename, firstlineno), list of race descriptions)."""
+    codes, races = set(), []
+    enable_access_hooks(True)
+    try:
+        ex0, ctx0 = run_once(make, [], timeouts, interrupts, race=True)
+        names = sorted(set(t.name for t in ex0.th))
+        runs = [(ex0, ctx0)]
+        for nm in names:
+            runs.append(run_once(make, [], timeouts, interrupts, policy=starve_policy(nm), race=True))
+        for ex, ctx in runs:
+            codes |= ex.race.analyse()
+            races += ex.race.races
+            if cleanup:
+                cleanup(ctx)
+    finally:
+        enable_access_hooks(False)
+    seen = set()
+    out = []
+    for r in races:
+        k = (r[0], r[1], r[2][2], r[3][2])
+        if k not in seen:
+            seen.add(k)
+            out.append("%s.%s: %s:%d (%s) vs %s:%d (%s)" % (r[0], r[1], r[2][0].split("/")[-1], r[2][2], r[2][3],
+                                                           r[3][0].split("/")[-1], r[3][2], r[3][3]))
+    return codes, out
 
 
 class _TimeShim:
@@ -508,6 +651,9 @@ class _ThreadingShim:
         if ex is None or ex.me() is None:
             return self._real.enumerate()
         alive = [t for t in ex.th if t.started and not t.finished]
+        for t in ex.th:
+            if t.finished:
+                ex.hb_acquire(t.vc)
         ex.record(("enumerate", len(alive)))
         return alive
 
@@ -577,12 +723,16 @@ def starve_policy(name):
     return pol
 
 
-def run_once(make, prefix, timeouts=0, interrupts=0, line_mode=False, stop_at_seen=None, policy=None):
+def run_once(make, prefix, timeouts=0, interrupts=0, line_mode=False, stop_at_seen=None, policy=None, race=False,
+             line_codes=None):
     """make() -> (main_fn, ctx).  Runs one execution; returns (execution, ctx)."""
     gc_was = gc.isenabled()
     gc.disable()
     try:
         ex = Execution(prefix, timeouts, interrupts, line_mode, stop_at_seen, policy=policy)
+        if race:
+            ex.race = RaceDetector()
+        ex.line_codes = line_codes
         Execution.cur = ex
         main_fn, ctx = make()
         ex.run(main_fn)
@@ -597,7 +747,7 @@ def run_once(make, prefix, timeouts=0, interrupts=0, line_mode=False, stop_at_se
 
 def explore(make, check, timeouts=0, interrupts=0, line_mode=False, preemption_bound=None,
             max_executions=None, cleanup=None, max_violations=3, start_stack=None, only_root=False,
-            return_leftover=False):
+            return_leftover=False, line_codes=None, max_seconds=None):
     """Exhaustive DFS by re-execution.
 
     sync mode (line_mode False): all interleavings, no preemption bound, state-cached.
@@ -614,11 +764,11 @@ def explore(make, check, timeouts=0, interrupts=0, line_mode=False, preemption_b
         raise HarnessError("a split exploration cannot share a state cache")
     while stack:
         prefix = stack.pop()
-        ex, ctx = run_once(make, prefix, timeouts, interrupts, line_mode, expanded)
+        ex, ctx = run_once(make, prefix, timeouts, interrupts, line_mode, expanded, line_codes=line_codes)
         st.executions += 1
         if st.executions == 1 and start_stack is None:
             # determinism is owned, then proved: the first schedule twice, identical observations
-            ex2, ctx2 = run_once(make, prefix, timeouts, interrupts, line_mode, None)
+            ex2, ctx2 = run_once(make, prefix, timeouts, interrupts, line_mode, None, line_codes=line_codes)
             if ex2.log != ex.log or ex2.trace != ex.trace or ex2.outcome != ex.outcome:
                 raise HarnessError("the same schedule gave two different observation logs")
             if cleanup:
@@ -633,7 +783,7 @@ def explore(make, check, timeouts=0, interrupts=0, line_mode=False, preemption_b
             msg = check(ex, ctx)
             if msg:
                 # a failure must reproduce before it is reported
-                exr, ctxr = run_once(make, ex.trace, timeouts, interrupts, line_mode, None)
+                exr, ctxr = run_once(make, ex.trace, timeouts, interrupts, line_mode, None, line_codes=line_codes)
                 msgr = check(exr, ctxr)
                 if cleanup:
                     cleanup(ctxr)
@@ -666,6 +816,12 @@ def explore(make, check, timeouts=0, interrupts=0, line_mode=False, preemption_b
             break
         if st.executions % 64 == 0:
             gc.collect()
+        if max_seconds and time.time() - t0 > max_seconds and stack:
+            if return_leftover:
+                st.stack = stack
+            else:
+                st.cap_hit = "time cap %ds reached after %d executions with %d prefixes pending" % (max_seconds, st.executions, len(stack))
+            break
         if max_executions and st.executions >= max_executions and stack:
             if return_leftover:
                 st.stack = stack
@@ -683,14 +839,14 @@ def explore(make, check, timeouts=0, interrupts=0, line_mode=False, preemption_b
     return st
 
 
-def minimize(make, check, trace, timeouts=0, interrupts=0, line_mode=False, cleanup=None, budget=150):
+def minimize(make, check, trace, timeouts=0, interrupts=0, line_mode=False, cleanup=None, budget=150, line_codes=None):
     """Shrinks a violating schedule: shortest prefix after which the default continuation still
     violates, then individual deviations dropped while the violation persists.  Returns
     (schedule, message, labels) of the smallest one found."""
 
     def attempt(prefix):
         try:
-            ex, ctx = run_once(make, prefix, timeouts, interrupts, line_mode, None)
+            ex, ctx = run_once(make, prefix, timeouts, interrupts, line_mode, None, line_codes=line_codes)
         except HarnessError:
             return None
         try:
